@@ -788,6 +788,8 @@ func (db *DB) readWALPageOffsets(f *os.File) (_ map[uint32]int64, lastCommit uin
 	r := NewWALReader(f)
 	if err := r.ReadHeader(); err == io.EOF {
 		return nil, 0, nil
+	} else if err != nil {
+		return nil, 0, err
 	}
 
 	// Read the offset of the last version of each page in the WAL.
